@@ -8,15 +8,26 @@ func X25519(k, u []byte) []byte {
 	kk[0] &= 248
 	kk[31] &= 127
 	kk[31] |= 64
-	sc := FromLE(kk)
 	uu := append([]byte{}, u...)
 	uu[31] &= 127
-	x1 := fmod(FromLE(uu))
+	return LE32(Ladder(FromLE(kk), FromLE(uu)))
+}
+
+// Ladder is the RFC 7748 ladder with an arbitrary (unclamped) scalar below 2^256: the u-coordinate of [sc]P for
+// any P (on the curve or its twist) with u(P) = u, and 0 for the point at infinity.
+func Ladder(sc, u *big.Int) *big.Int {
+	x2, z2 := LadderXZ(sc, u)
+	return fmul(x2, finv(z2))
+}
+
+// LadderXZ returns the projective result (X : Z); Z = 0 exactly for the point at infinity.
+func LadderXZ(sc, u *big.Int) (*big.Int, *big.Int) {
+	x1 := fmod(u)
 	x2, z2 := big.NewInt(1), big.NewInt(0)
 	x3, z3 := new(big.Int).Set(x1), big.NewInt(1)
 	swap := uint(0)
 	a24 := big.NewInt(121665)
-	for t := 254; t >= 0; t-- {
+	for t := 255; t >= 0; t-- {
 		kt := sc.Bit(t)
 		swap ^= kt
 		if swap == 1 {
@@ -42,5 +53,38 @@ func X25519(k, u []byte) []byte {
 		x2, x3 = x3, x2
 		z2, z3 = z3, z2
 	}
-	return LE32(fmul(x2, finv(z2)))
+	return x2, z2
+}
+
+// TwistOrder is the prime l' with #twist = 4*l'.
+var TwistOrder = func() *big.Int {
+	n := new(big.Int).Add(new(big.Int).Lsh(P, 1), big.NewInt(2))
+	n.Sub(n, new(big.Int).Lsh(L, 3))
+	return n.Rsh(n, 2)
+}()
+
+// X25519Preimage returns a u-coordinate q with X25519(k, q) = target exactly, or nil if target is not the
+// u-coordinate of a point of prime order on the curve or on its twist (then no clamped scalar can produce it).
+func X25519Preimage(k []byte, target *big.Int) []byte {
+	kk := append([]byte{}, k...)
+	kk[0] &= 248
+	kk[31] &= 127
+	kk[31] |= 64
+	c := FromLE(kk)
+	if target.Sign() == 0 || target.Cmp(P) >= 0 {
+		return nil
+	}
+	for _, ord := range []*big.Int{L, TwistOrder} {
+		// [ord]P must be the point at infinity itself (Z = 0), not the 2-torsion point (0,0) whose u is also 0
+		if _, z := LadderXZ(ord, target); z.Sign() != 0 {
+			continue
+		}
+		inv := new(big.Int).ModInverse(new(big.Int).Mod(c, ord), ord)
+		if inv == nil {
+			return nil
+		}
+		q := Ladder(inv, target)
+		return LE32(q)
+	}
+	return nil
 }
